@@ -160,7 +160,7 @@ func main() {
 	res.Rule = "hashcom: random/boundary (empty, 1 byte, long) messages × keys × witnesses, every case with single-bit changes of key/message/witness/commitment, truncations, extensions and message/witness boundary shifts; pedersencom (k256, BLS12-381 G1, P-256, edwards25519), intcom (cached safe-prime moduli), indcpacom over ElGamal (k256, BLS12-381 G1): random sequences of homomorphic operations on tracked openings (messages 0, 1, q-1 and random), per program single-component changes of message/witness/commitment/key, trapdoor keys with equivocation verified under the exported key; key extraction from pairs of equal/different transcripts. non-trivial = the case reached an Open / commitment computation; distinct by canonical case text"
 	r := &runner{a: a, res: res}
 
-	c := counts{hash: 150, ped: 30, pedOps: 10, intc: 14, intOps: 10, eg: 20, egOps: 10, ext: 60, equiv: 40, tamperPerProgram: 2}
+	c := counts{hash: 120, ped: 20, pedOps: 10, intc: 10, intOps: 10, eg: 12, egOps: 10, ext: 60, equiv: 24, tamperPerProgram: 2}
 	if a.Tier == "thorough" {
 		c = counts{hash: 1500, ped: 300, pedOps: 50, intc: 120, intOps: 50, eg: 200, egOps: 50, ext: 1500, equiv: 600, tamperPerProgram: 6}
 	}
